@@ -70,7 +70,7 @@ def gen_operand(rng, shape, unit):
 
 
 def generate(rng, tier):
-    n = 700 if tier == "quick" else 100000
+    n = 1500 if tier == "quick" else 100000
     for i in range(n):
         nd = rng.choice([1, 2, 2, 3])
         shape = [rng.randint(1, 3) for _ in range(nd)]
